@@ -39,7 +39,7 @@ func runC08(c *Ctx) {
 		n := 0
 		for _, st := range P.FieldStores(f) {
 			n++
-			if nm := SSAFuncName(st.Parent()); !w.allow[nm] {
+			if nm := SSAFuncName(st.Parent()); !w.allow[nm] && !P.PrivateHelperOf(st.Parent(), w.allow) {
 				bad += " " + nm + "@" + P.Pos(st.Pos())
 			}
 		}
@@ -52,7 +52,17 @@ func runC08(c *Ctx) {
 	timeAdd := P.FuncObj("time.Time.Add")
 	strictlyAfter := TrueRes("now.After(s.lastNoticeTimestamp)", true, 0, CallWhere(CallWhere(ToFn(after), 0, VRes(0, ViaGlobal(timeNow))), 1, VField(fLastTS)))
 	nts := 0
-	for _, st := range StoresToField(add, fLastTS) {
+	// the "next timestamp" computation may be a private helper of AddNotice
+	tsFn := add
+	if len(StoresToField(add, fLastTS)) == 0 {
+		for _, h := range P.HelpersOf(add) {
+			if len(StoresToField(h, fLastTS)) > 0 {
+				tsFn = h
+				c.touch(h)
+			}
+		}
+	}
+	for _, st := range StoresToField(tsFn, fLastTS) {
 		var fps []FlowPoint
 		phiLeaves(st.Val, st, &fps, map[*ssa.Phi]bool{})
 		for _, fp := range fps {
@@ -60,7 +70,7 @@ func runC08(c *Ctx) {
 			construct := fmt.Sprintf("overlord/state.(*State).AddNotice#timestamp-source#%d", nts)
 			switch {
 			case VRes(0, ViaGlobal(timeNow))(fp.Val):
-				c.GuardedFlow(construct, add, fp, []Clause{{strictlyAfter}}, nil)
+				c.GuardedFlow(construct, tsFn, fp, []Clause{{strictlyAfter}}, nil)
 			case VRes(0, CallWhere(CallWhere(ToFn(timeAdd), 0, VField(fLastTS)), 1, func(v ssa.Value) bool { k, ok := ConstInt(v); return ok && k > 0 }))(fp.Val):
 				c.Holds(construct, fp.Pos(), "last timestamp + a positive constant")
 			default:
@@ -404,7 +414,20 @@ func runC08(c *Ctx) {
 		c.Undecided("overlord/state.(*State).WaitNotices#wait", wn.Pos(), "noticeCond.Wait() not found")
 	}
 	okHook := false
-	for _, cl := range wn.AnonFuncs {
+	// the hook: a function literal, or a method value (s.wake) handed to contextAfterFunc
+	hookFns := append([]*ssa.Function(nil), wn.AnonFuncs...)
+	for _, b := range wn.Blocks {
+		for _, in := range b.Instrs {
+			if mc, ok := in.(*ssa.MakeClosure); ok {
+				if f, ok := mc.Fn.(*ssa.Function); ok && f.Synthetic != "" {
+					if bt := boundTarget(f); bt != nil && bt.Pkg == wn.Pkg {
+						hookFns = append(hookFns, bt)
+					}
+				}
+			}
+		}
+	}
+	for _, cl := range hookFns {
 		for _, b := range cl.Blocks {
 			for _, in := range b.Instrs {
 				ci, ok := in.(ssa.CallInstruction)
